@@ -141,9 +141,10 @@ type recvd struct {
 }
 
 type libServer struct {
-	k    *kase
-	sc   *client.CqlServerConnection
-	pump chan recvd
+	k      *kase
+	sc     *client.CqlServerConnection
+	pump   chan recvd
+	unread []*frame.Frame // frames taken from the pump and put back
 }
 
 // startPump moves everything CqlServerConnection.Receive yields, in order, into a channel (Receive has no timeout).
@@ -162,6 +163,11 @@ func (ls *libServer) startPump() {
 
 // next returns the next received frame: "ok", "closed", "timeout".
 func (ls *libServer) next() (*frame.Frame, string) {
+	if len(ls.unread) > 0 {
+		f := ls.unread[0]
+		ls.unread = ls.unread[1:]
+		return f, "ok"
+	}
 	select {
 	case r := <-ls.pump:
 		if r.err != nil {
